@@ -103,6 +103,8 @@ pub struct DiskRun {
     nv: u64,
     probes: usize,
     out: Vec<J>,
+    /// no operation since the last restart
+    fresh: bool,
 }
 
 fn copy_dir(from: &Path, to: &Path) -> std::io::Result<()> {
@@ -129,6 +131,7 @@ impl DiskRun {
             nv: 0,
             probes: 0,
             out: vec![json!({"a": "init"})],
+            fresh: false,
         };
         s.log_writes();
         Ok(s)
@@ -218,7 +221,15 @@ impl DiskRun {
             "drain" => {
                 let probes = op.get("probes").and_then(|x| x.as_bool()).unwrap_or(true);
                 let tears = op.get("tears").and_then(|x| x.as_bool()).unwrap_or(true);
+                // the acknowledgement of everything submitted so far is logged at the moment it is given
+                let acked = self.runner.spawn_wait_flag();
+                let mut ack_logged = false;
+                self.runner.turn_pub();
                 for _ in 0..10_000 {
+                    if !ack_logged && acked.load(std::sync::atomic::Ordering::SeqCst) {
+                        ack_logged = true;
+                        self.out.push(json!({"a": "ack"}));
+                    }
                     let pending = self.runner.gate.pending();
                     let Some(id) = pending.first().copied() else { break };
                     let e = self.runner.gate.entries_from(id)[0].clone();
@@ -241,6 +252,9 @@ impl DiskRun {
                 }
                 self.runner.apply(&json!({"a": "gate_off"}))?;
                 self.log_writes();
+                if !ack_logged && acked.load(std::sync::atomic::Ordering::SeqCst) {
+                    self.out.push(json!({"a": "ack"}));
+                }
             }
             "wait" => {
                 self.runner.wait_flush()?;
@@ -250,7 +264,7 @@ impl DiskRun {
             "q" => {
                 self.log_writes();
                 let (res, claimed) = self.lookups_live();
-                self.out.push(json!({"a": "q", "res": res, "claimed": claimed}));
+                self.out.push(json!({"a": "q", "res": res, "claimed": claimed, "reopened": self.fresh}));
             }
             "probe" => {
                 self.log_writes();
@@ -262,8 +276,13 @@ impl DiskRun {
                 self.log_writes();
                 self.runner.apply(&json!({"a": "reopen"}))?;
                 self.log_writes();
+                self.fresh = true;
+                return Ok(());
             }
             other => return Err(format!("unknown disk op {other}")),
+        }
+        if a != "q" && a != "probe" {
+            self.fresh = false;
         }
         self.log_writes();
         Ok(())
